@@ -43,6 +43,9 @@ function extract(w, site) {
     case 'mark-value': return Object.values(el.attrs.m)[0]
     case 'data-name': return Object.keys(el.attrs.d)[0]
     case 'data-value': return Object.values(el.attrs.d)[0]
+    case 'model-name': return Object.keys(el.attrs.r)[0]
+    case 'change-name': return Object.keys(el.attrs.p)[0]
+    case 'worklet-name': return Object.keys(el.attrs.wl)[0]
     case 'slot-attr': return el.slot
     case 'slot-name': return firstOf(root, (c) => c.type === 'virt' && c.name === 'slot').slotName
     case 'generic-value': return Object.values(el.generics)[0]
